@@ -875,7 +875,9 @@ pub unsafe extern "C" fn fork() -> pid_t {
             let mask = s.k.par_mask[t as usize];
             let spawn_idx = s.k.n_spawned;
             s.k.n_spawned += 1;
+            s.k.last_fork_of_thread[t as usize] = Some(spawn_idx);
             let cpid = s.k.fork_proc(PARENT_PID, mask, PKind::Child(spawn_idx));
+            s.k.proc_mut(cpid).forked_by = Some(t);
             // the report channel (real descriptors, never seen by the library)
             let mut rp = [0 as c_int; 2];
             if libc::syscall(libc::SYS_pipe2, rp.as_mut_ptr(), libc::O_CLOEXEC) != 0 {
